@@ -381,6 +381,7 @@ class Node:
                 (name_node, value_node)
                 for name_node, value_node in self.yaml_node.value
                 if (
+                    not isinstance(name_node, yaml.ScalarNode) or
                     name_node.value not in defaults or
                     not matches(value_node, defaults[name_node.value]))]
 
